@@ -274,6 +274,47 @@ def run(prop, tier, seed, replay):
                     if ci % 2 == 0:
                         C.remove(root / f"c{ci % 4}")       # (odd cases leave their catalog: the next user of the path overwrites it)
                     C.remove(root / f"o{ci}")
+        # ---- stratum: objects a few nano-radian off the boundary between two patches (survey edges, tiling overlaps): each
+        #      belongs to the centre it is nearer to — by 4e-10 in squared chord length, far above double-precision rounding
+        nprng_n = np.random.default_rng(rng.randrange(2 ** 32))
+        for rep_i in range(2):
+            c1 = G.to_vec(*[(0.7, 0.2), (5.9, -1.1)][rep_i])
+            c2 = G.to_vec(*[(0.8, 0.25), (6.1, -1.0)][rep_i])
+            mid = (c1 + c2) / np.linalg.norm(c1 + c2)
+            along = np.cross(c1, c2)
+            along /= np.linalg.norm(along)
+            across = (c2 - c1) / np.linalg.norm(c2 - c1)
+            n_b = 200
+            s_ = nprng_n.uniform(-0.02, 0.02, n_b)
+            t_ = nprng_n.choice([-2e-9, 2e-9, -5e-9, 5e-9], n_b)
+            pts = mid[None, :] + s_[:, None] * along[None, :]
+            pts /= np.linalg.norm(pts, axis=1, keepdims=True)
+            pts = pts + t_[:, None] * across[None, :]
+            ra_n, dec_n = G.from_vec(pts)
+            # plus a few objects close to either centre so that both patches are well populated
+            near1, near2 = G.from_vec(G.scatter(nprng_n, c1, 0.01, 20)), G.from_vec(G.scatter(nprng_n, c2, 0.01, 20))
+            ra_n, dec_n = np.concatenate([ra_n, near1[0], near2[0]]), np.concatenate([dec_n, near1[1], near2[1]])
+            given_n = np.column_stack(G.from_vec(np.array([c1, c2])))
+            v_n = O.to_vec(ra_n, dec_n)
+            cv_n = O.to_vec(given_n[:, 0], given_n[:, 1])
+            d2_n = ((v_n[:, None, :] - cv_n[None, :, :]) ** 2).sum(axis=2)
+            want_n = np.argmin(d2_n, axis=1)
+            clear_n = np.abs(d2_n[:, 0] - d2_n[:, 1]) > 1e-11
+            with C.Workers(1):
+                cat_n = C.make_catalog(root / "near", ra_n, dec_n, centers=AngularCoordinates(given_n.copy()), chunksize=64)
+            ck.case(None, ("near-boundary", rep_i))
+            ck.count("stratum=objects-nanoradians-off-a-patch-boundary")
+            got_n = {}
+            for pid_ in cat_n.keys():
+                d_ = cat_n[pid_].load_data()
+                for a_, b_ in zip(d_["ra"].tolist(), d_["dec"].tolist()):
+                    got_n[(a_, b_)] = pid_
+            wrong_n = [i for i in np.flatnonzero(clear_n) if got_n.get((float(ra_n[i]), float(dec_n[i]))) != int(want_n[i])]
+            if wrong_n:
+                ck.add_violation(f"{len(wrong_n)} of {int(clear_n.sum())} objects 2 - 5 nano-radian off the boundary between two given centres "
+                                 "are stored in the patch of the centre that is farther away",
+                                 {"mode": "centers", "centres": given_n.tolist(), "ra": ra_n[wrong_n[:5]].tolist(), "dec": dec_n[wrong_n[:5]].tolist()})
+            C.remove(root / "near")
         # ---- stratum: one LARGE patch (more records than any block / buffer size a helper may work in, and not a multiple of a
         #      power of two) whose outermost records come last in the input — counts, weight sum and radius still describe it
         nprng_b = np.random.default_rng(rng.randrange(2 ** 32))
